@@ -676,7 +676,21 @@ func checkC18(c *Ctx, r *Report) {
 	for _, f := range c.FuncsNamed("(*" + configPkg + ".ConfigProp).ConfirmCommitted") {
 		cf := findCall(f, "(*"+configPkg+".commitable).Confirm")
 		st := findCall(f, "(*reservoir/utils/atomics.Value).Store")
-		r.Check(cf != nil && st != nil && instrDominates(cf, st), "C18.R1", "ConfirmCommitted confirms the commit and stores the cell back", c.Pos(f.Pos()), "Confirm() then value.Store(commit)", "ConfirmCommitted does not confirm the commit (or does not store the confirmed cell)")
+		okEvery := cf != nil && st != nil && instrDominates(cf, st)
+		where := ""
+		if okEvery {
+			// on every path to a return: a property of any kind (restart-requiring or not) forgets its previous
+			// value once the update is final, otherwise a later rollback of a merely staged update restores it.
+			// The confirmation may be done through a same-package helper (modify(func(state){state.Confirm()})).
+			isConfirmStore := func(in ssa.Instruction) bool { return in == ssa.Instruction(st) }
+			for _, e := range exitsFromEntryAvoiding(f, isConfirmStore, nil) {
+				if ret, isRet := e.(*ssa.Return); isRet && !isRecoverReturn(ret) {
+					okEvery = false
+					where = c.InstrPos(ret)
+				}
+			}
+		}
+		r.Check(okEvery, "C18.R1", "ConfirmCommitted confirms the commit and stores the cell back", c.Pos(f.Pos()), "Confirm() then value.Store(commit) on every path", "ConfirmCommitted does not confirm the commit and store the confirmed cell on every path (return at "+where+" skips it): the property keeps its 'previous value', and the rollback of a later rejected update silently restores the setting from before the accepted one")
 	}
 	// lost writes: a method with a value receiver that assigns a field of its receiver copy
 	nVR := 0
